@@ -99,6 +99,7 @@ def execute(p, ch):
         remaining = list(msgs)
         paused = [False] * len(eps)
         budget = p["toggles"]
+        ticks = 2
         W = p.get("W", 2)
         if p.get("backlog"):
             # a deep backlog instead of a short burst: the victim is stalled from the start and never drains while
@@ -136,7 +137,12 @@ def execute(p, ch):
             if budget > 0:
                 for i in range(len(eps)):
                     menu.append(("toggle", i))
-            terminal = not loop.has_ready() and not remaining and (ctl is None or len(ctl) == 0) and (dctl is None or len(dctl) == 0)
+            nt = loop.next_timer()
+            if nt is not None and ticks > 0 and not loop.has_ready():
+                # time passes (to the next timer of the loop) while I/O is still outstanding: the unchanged handlers set
+                # no timers, so this choice only exists for code that uses timeouts
+                menu.append(("tick",))
+            terminal = not loop.has_ready() and not remaining and (ctl is None or len(ctl) == 0) and (dctl is None or len(dctl) == 0) and loop.next_timer() is None
             if terminal:
                 menu.insert(0, ("finish",))
             c = ch.choose(len(menu), None, "menu")
@@ -159,6 +165,9 @@ def execute(p, ch):
                 ctl.run(act[1])
             elif act[0] == "djob":
                 dctl.run(act[1])
+            elif act[0] == "tick":
+                ticks -= 1
+                loop.advance_to(loop.next_timer())
             elif act[0] == "toggle":
                 i = act[1]
                 budget -= 1
